@@ -19,6 +19,7 @@ class ScriptSecrets:
     def __init__(self, rtfile=None, party=0, multi=False):
         self.rtfile = rtfile
         self.party, self.multi = party, multi
+        self.sec_param = None       # set by the engine: the blinding rule applies on the large-field path only
         self.begin('seeded', 0, None)
         self.blinding_forced = 0
 
@@ -54,7 +55,7 @@ class ScriptSecrets:
             v = n - 1
         else:
             v = r
-        if (v == 0 or self.multi) and kind == 'below' and n > 64 and n & (n - 1) and self._blinding_site():
+        if (v == 0 or self.multi) and kind == 'below' and self.sec_param and n.bit_length() // self.sec_param >= 2 and self._blinding_site():
             # excluded event: blinding factor 0 (probability 1/p).  With several parties the factor is the SUM of the
             # senders' draws: distinct small values party+1 keep the sum in 1..m(t+1) < p
             v = self.party + 1 if self.multi else 1
@@ -97,6 +98,7 @@ def setup(sec_param=None, no_prss=True, bit_length=None):
     elif _state['no_prss'] != no_prss:
         raise RuntimeError('one PRSS mode per process')
     mpc = _state['mpc']
+    _state['seam'].sec_param = sec_param if sec_param is not None else mpc.options.sec_param
     if sec_param is not None and mpc.options.sec_param != sec_param:
         mpc.options.sec_param = sec_param
         from mpyc import sectypes
